@@ -111,6 +111,7 @@ func main() {
 		}
 	}
 	jobs = append(jobs, ecrecoverJobs(c)...)
+	jobs = append(jobs, g2Jobs(c)...)
 	jobs = append(jobs, pairingJobs(c)...)
 	jobs = append(jobs, expmodJobs(c)...)
 	if wantGroup(c, "te") || wantGroup(c, "eddsa") {
